@@ -49,10 +49,6 @@ FlatToks(toks, i) ==
   ELSE IF toks[i][1] \in {"c", "sgr"} THEN <<toks[i]>> \o FlatToks(toks, i + 1)
   ELSE [k \in DOMAIN toks[i][2] |-> <<"c", <<toks[i][2][k]>> >>] \o FlatToks(toks, i + 1)
 
-\* strict reading of an input SGR body: digits and ';' only, no empty parameter unless wholly empty
-SgrStrictOK(params) ==
-  params = << >> \/ (LET pl == ParamList(params) IN pl.ok /\ TermEffs(pl.ps).ok)
-
 NewC(e, pre, post) ==
   LET w == post[e.res[1]]
       fromReg == e.a.src # 0
